@@ -85,18 +85,20 @@ def product_state(ops, pattern, nr_phys):
 def build_state(spec):
     """MpsMpoOBC (pC None) from a JSON spec"""
     import yastn.tn.mps as mps
+    from yastn import YastnError as yastn_error
     ops = make_ops(spec["fam"], spec["sym"])
     N, nr = spec["N"], spec["nr_phys"]
     ops.random_seed(seed=spec["seed"])
     I = mps.product_mpo(ops.I(), N)
     kind = spec["kind"]
 
-    def rnd():
+    def rnd(D=None):
+        D = spec["D"] if D is None else D
         if nr == 2:
-            return mps.random_mpo(I, D_total=spec["D"], dtype=spec["dtype"])
+            return mps.random_mpo(I, D_total=D, dtype=spec["dtype"])
         ref = product_state(ops, spec["patterns"][0], 1)
         n = ref.virtual_leg("first").t[0]
-        return mps.random_mps(I, n=n, D_total=spec["D"], dtype=spec["dtype"])
+        return mps.random_mps(I, n=n, D_total=D, dtype=spec["dtype"])
 
     def ghz():
         sts = [product_state(ops, p, nr) for p in spec["patterns"]]
@@ -113,6 +115,12 @@ def build_state(spec):
         psi = mps.add(a, a, amplitudes=[1.0, spec["amps"][0]])
     elif kind == "sum":          # random + product/GHZ
         psi = mps.add(rnd(), ghz(), amplitudes=[1.0, spec["amps"][0]])
+    elif kind == "pert":         # a/|a| + eps*b/|b| : a group of Schmidt values of relative size ~eps (tiny, but resolved)
+        a, b = rnd(), rnd(spec["D2"])
+        na, nb = abs(mps.vdot(a, a)) ** 0.5, abs(mps.vdot(b, b)) ** 0.5
+        if not (na > 0 and nb > 0):
+            raise yastn_error("pert: zero component")
+        psi = mps.add(a, b, amplitudes=[1.0 / na, spec["eps"] / nb])
     else:
         raise ValueError(kind)
     psi = spec["scale"] * psi
@@ -129,7 +137,7 @@ def try_build(ctx, spec):
         return None, None
 
 
-def gen_state_spec(rng, quick, dense=True, nr_phys=None, Nmax=None):
+def gen_state_spec(rng, quick, dense=True, nr_phys=None, Nmax=None, pert=0.08):
     fam, sym = rng.choice(FAMILIES)
     d = LOCAL_DIM[fam]
     nr = nr_phys if nr_phys is not None else (1 if rng.random() < 0.6 else 2)
@@ -141,6 +149,8 @@ def gen_state_spec(rng, quick, dense=True, nr_phys=None, Nmax=None):
     if rng.random() < 0.25:
         N = max(N, min(nmax, 3))
     kind = rng.choice(["random", "random", "random", "product", "ghz", "ghz", "dup", "sum"])
+    if rng.random() < pert:
+        kind = "pert"
     base = [rng.randrange(d) for _ in range(N)]
     pats = [base]
     if kind in ("ghz", "sum"):
@@ -159,7 +169,8 @@ def gen_state_spec(rng, quick, dense=True, nr_phys=None, Nmax=None):
         amps[0] = rng.choice([1.0, 0.5, -0.25, 2.0])
     return {"fam": fam, "sym": sym, "N": N, "nr_phys": nr, "kind": kind, "seed": rng.randrange(1 << 30),
             "D": rng.choice([1, 2, 3, 4, 6, 8]), "dtype": "complex128" if rng.random() < 0.25 else "float64",
-            "patterns": pats, "amps": amps, "scale": rng.choice([1.0, 1.0, 1.7, 0.5, -2.0, 3.25])}
+            "patterns": pats, "amps": amps, "scale": rng.choice([1.0, 1.0, 1.7, 0.5, -2.0, 3.25]),
+            "D2": rng.choice([1, 2, 3]), "eps": float("%.3e" % 10 ** (-rng.uniform(2.0, 9.5)))}
 
 
 # =====================================================================================================
